@@ -65,6 +65,8 @@ NOFEAT_VARIANTS = {
     "nf_default": (True, [], ["bank", "wasm_exec", "wasm_inst", "staking", "distribution", "custom"]),
     "nf_none": (False, [], ["bank", "wasm_exec", "wasm_inst", "custom"]),
     "nf_stargate": (False, ["stargate"], ["bank", "wasm_exec", "wasm_inst", "ibc", "gov", "stargate", "custom"]),
+    "nf_stargate_2_0": (False, ["stargate", "cosmwasm_2_0"], ["bank", "wasm_exec", "wasm_inst", "ibc", "gov", "stargate", "any", "custom"]),
+    "nf_all_2_0": (True, ["stargate", "cosmwasm_2_0"], ["bank", "wasm_exec", "staking", "distribution", "ibc", "gov", "stargate", "any", "custom"]),
 }
 
 
